@@ -18,6 +18,7 @@ import (
 type Meta struct {
 	ID      int
 	Rev     int
+	DevRev  int // revision the device entries were last changed in (<= Rev): a revision may change the Spec-level part only
 	Valid   bool
 	Defect  string // for invalid contents
 	Vendor  string
@@ -29,7 +30,14 @@ type Meta struct {
 }
 
 // Marker is the value of the CDI_SIM variable of device dev in this content.
-func (m *Meta) Marker(dev string) string { return fmt.Sprintf("f%dr%d.%s", m.ID, m.Rev, dev) }
+func (m *Meta) Marker(dev string) string { return fmt.Sprintf("f%dr%d.%s", m.ID, m.DevRev, dev) }
+
+// SpecMarker is the value of the Spec-level CDI_SIM_SPEC variable of this content.
+func (m *Meta) SpecMarker() string { return fmt.Sprintf("f%dr%d", m.ID, m.Rev) }
+
+// FullMarker identifies the definition of dev in this content: the device
+// entry and the Spec it belongs to.
+func (m *Meta) FullMarker(dev string) string { return m.Marker(dev) + "@" + m.SpecMarker() }
 
 // Qualified returns the qualified names this content defines.
 func (m *Meta) Qualified() []string {
@@ -48,6 +56,9 @@ func (m *Meta) String() string {
 	enc := "yaml"
 	if m.JSON {
 		enc = "json"
+	}
+	if m.DevRev != m.Rev {
+		enc += fmt.Sprintf(" (device entries as in r%d)", m.DevRev)
 	}
 	return fmt.Sprintf("valid#%dr%d %s/%s %v %s", m.ID, m.Rev, m.Vendor, m.Class, m.Devices, enc)
 }
@@ -104,7 +115,7 @@ func (r *Registry) Valid(src *choice.Source, asJSON bool, o Opts) *Meta {
 	if o.MaxDevs == 0 {
 		o.MaxDevs = 3
 	}
-	m := &Meta{ID: r.nextID, Rev: 1, Valid: true, JSON: asJSON}
+	m := &Meta{ID: r.nextID, Rev: 1, DevRev: 1, Valid: true, JSON: asJSON}
 	r.nextID++
 	m.Vendor = pick(src, o.Vendors)
 	m.Class = pick(src, o.Classes)
@@ -129,7 +140,14 @@ func (r *Registry) Revise(src *choice.Source, old *Meta, o Opts) *Meta {
 	defer src.End()
 	m := &Meta{ID: old.ID, Rev: old.Rev + 1 + src.Intn(1), Valid: true, JSON: old.JSON, Vendor: old.Vendor, Class: old.Class}
 	m.Devices = append([]string(nil), old.Devices...)
-	switch src.Intn(4) {
+	// one revision in three changes the Spec-level part only: every device
+	// entry stays byte for byte what it was
+	specOnly := src.Bool(1, 3)
+	devChange := src.Intn(4)
+	if specOnly {
+		devChange = 0
+	}
+	switch devChange {
 	case 1:
 		if len(m.Devices) > 1 {
 			m.Devices = m.Devices[:len(m.Devices)-1]
@@ -150,6 +168,10 @@ func (r *Registry) Revise(src *choice.Source, old *Meta, o Opts) *Meta {
 	for r.byContentHasRev(m) {
 		m.Rev++
 	}
+	m.DevRev = m.Rev
+	if specOnly {
+		m.DevRev = old.DevRev
+	}
 	r.render(src, m, o)
 	return r.add(m)
 }
@@ -165,9 +187,7 @@ func (r *Registry) byContentHasRev(m *Meta) bool {
 
 func (r *Registry) render(src *choice.Source, m *Meta, o Opts) {
 	s := &specs.Spec{Version: pick(src, versions), Kind: m.Vendor + "/" + m.Class}
-	if src.Bool(1, 3) {
-		s.ContainerEdits.Env = []string{fmt.Sprintf("CDI_SIM_SPEC=f%dr%d", m.ID, m.Rev)}
-	}
+	s.ContainerEdits.Env = []string{"CDI_SIM_SPEC=" + m.SpecMarker()}
 	for _, d := range m.Devices {
 		s.Devices = append(s.Devices, specs.Device{Name: d, ContainerEdits: specs.ContainerEdits{Env: []string{"CDI_SIM=" + m.Marker(d)}}})
 	}
@@ -253,7 +273,7 @@ func (r *Registry) Invalid(src *choice.Source, defect string) *Meta {
 // Register records a content produced elsewhere (e.g. by the library's own
 // writer) as a valid Spec defining the given devices.
 func (r *Registry) Register(content []byte, like *Meta, asJSON bool) *Meta {
-	m := &Meta{ID: like.ID, Rev: like.Rev, Valid: true, Vendor: like.Vendor, Class: like.Class, Devices: like.Devices, JSON: asJSON, Content: content, Spec: like.Spec}
+	m := &Meta{ID: like.ID, Rev: like.Rev, DevRev: like.DevRev, Valid: true, Vendor: like.Vendor, Class: like.Class, Devices: like.Devices, JSON: asJSON, Content: content, Spec: like.Spec}
 	return r.add(m)
 }
 
